@@ -76,12 +76,13 @@ func zzRAttrs(spec string) []*onnx.AttributeProto {
 	return out
 }
 
-// zzRData is one input: "2,3" (float32, symbolic), "2:i64=1,-1" (int64, concrete), "2,2:bool" (symbolic), "-" (absent)
+// zzRData is one input: "2,3" (float32, symbolic), "2,3:f64" (float64, symbolic), "2:i64=1,-1" (int64, concrete), "2,2:bool" (symbolic), "-" (absent)
 type zzRData struct {
 	absent bool
 	shape  []int
 	kind   string
 	f      []float32
+	d      []float64
 	i      []int64
 	b      []bool
 }
@@ -101,6 +102,8 @@ func zzRParse(v *zzverif.T, spec, name string) zzRData {
 	if len(p) > 1 {
 		if p[1] == "bool" {
 			d.kind = "bool"
+		} else if p[1] == "f64" {
+			d.kind = "f64"
 		} else {
 			d.kind = "i64"
 			kv := zzRSplit(p[1], '=')
@@ -114,6 +117,8 @@ func zzRParse(v *zzverif.T, spec, name string) zzRData {
 		d.f = zzverif.Syms[float32](v, name, n)
 	case "bool":
 		d.b = zzverif.Syms[bool](v, name, n)
+	case "f64":
+		d.d = zzverif.Syms[float64](v, name, n)
 	}
 	return d
 }
@@ -127,6 +132,8 @@ func (d zzRData) tensor() tensor.Tensor {
 		return zzverif.NewTensor(d.i, d.shape)
 	case "bool":
 		return zzverif.NewTensor(d.b, d.shape)
+	case "f64":
+		return zzverif.NewTensor(d.d, d.shape)
 	}
 	return zzverif.NewTensor(d.f, d.shape)
 }
